@@ -10,11 +10,27 @@ use crate::world::*;
 use dashu_base::{Approximation, BitTest, Sign, Signed};
 use dashu_float::round::Round;
 use dashu_float::FBig;
-use dashu_int::{IBig, UBig, Word};
+use dashu_int::{DoubleWord, IBig, UBig, Word};
 use dashu_ratio::{RBig, Relaxed};
 
 pub fn handles(rest: &str) -> bool {
-    rest == "asint" || rest == "asf"
+    rest == "asint" || rest == "asf" || rest == "fromf" || rest == "const"
+}
+
+/// the primitive float an op carries: `n` holds the bits, `m` picks f64 / f32 and a few special shapes
+fn float_of(op: &Op) -> (f64, f32, bool) {
+    let bits = op.n as u64;
+    let d = match op.m.unsigned_abs() % 8 {
+        0 => f64::from_bits(bits),
+        1 => (bits % 100_000) as f64 * 0.25,
+        2 => -((bits % 1_000_000) as f64),
+        3 => f64::from_bits(bits & 0x800f_ffff_ffff_ffff), // subnormals
+        4 => f64::from_bits((bits & 0x800f_ffff_ffff_ffff) | 0x7fe0_0000_0000_0000), // near the top
+        5 => [0.0, -0.0, 1.0, -1.0, 0.5, f64::MAX, f64::MIN_POSITIVE, f64::INFINITY, f64::NEG_INFINITY, f64::NAN][(bits % 10) as usize],
+        6 => ((bits >> 11) as f64) * 8.0,
+        _ => f64::from_bits(bits ^ 0x4000_0000_0000_0000),
+    };
+    (d, d as f32, op.m.unsigned_abs() % 16 >= 8)
 }
 
 fn put_int(w: &mut World, env: &mut Env, dst: usize, v: Option<IBig>) {
@@ -197,6 +213,126 @@ pub fn exec(w: &mut World, op: &Op, fam: &str, rest: &str, env: &mut Env) {
             let x: Relaxed = w.x[a].clone();
             if let Some(v) = ratio_asint!(&x, form, env) {
                 put_int(w, env, dst, v);
+            }
+        }
+        // constructors typed in Word / DoubleWord and the const constructors (their own reduction / normalisation /
+        // digit-counting loops); values below 2^32 resp. 2^64 so that every build is handed the same number
+        ("u", "const") => {
+            w.u[dst] = match form % 5 {
+                0 => UBig::from_word((op.n as u32) as Word),
+                1 => UBig::from_dword((op.n as u64) as DoubleWord),
+                2 => UBig::default(),
+                3 => UBig::from(op.n & 1 == 1),
+                _ => UBig::from_dword(((op.n as u64) | (1 << 63)) as DoubleWord),
+            };
+            env.res(Pool::U, dst);
+        }
+        ("i", "const") => {
+            let sign = if op.m & 1 == 1 { Sign::Negative } else { Sign::Positive };
+            w.i[dst] = match form % 4 {
+                0 => IBig::from_parts_const(sign, (op.n as u64) as DoubleWord),
+                1 => IBig::default(),
+                2 => IBig::from(op.n & 1 == 1),
+                _ => IBig::from_parts_const(sign, (op.n as u32) as DoubleWord),
+            };
+            env.res(Pool::I, dst);
+        }
+        ("r", "const") | ("x", "const") => {
+            let sign = if op.m & 1 == 1 { Sign::Negative } else { Sign::Positive };
+            let c = 1 + (op.m.unsigned_abs() >> 1) % 100_000;
+            let (n0, d0) = ((op.n as u64) & 0xffff_ffff, ((op.n as u64) >> 32) & 0x7fff_ffff);
+            let (n, d) = match form % 4 {
+                0 => (n0 * c, d0 * c),
+                1 => (n0, d0),
+                2 => (n0 * c, c),
+                _ => (c, d0 * c),
+            };
+            if fam == "r" {
+                w.r[dst] = RBig::from_parts_const(sign, n as DoubleWord, d as DoubleWord);
+                env.res(Pool::R, dst);
+            } else {
+                w.x[dst] = Relaxed::from_parts_const(sign, n as DoubleWord, d as DoubleWord);
+                env.res(Pool::X, dst);
+            }
+        }
+        ("f", "const") | ("d", "const") => {
+            let sign = if op.m & 1 == 1 { Sign::Negative } else { Sign::Positive };
+            let k = (op.m.unsigned_abs() >> 1) as usize;
+            let raw = op.n as u64;
+            let sig: u64 = match form % 5 {
+                0 => raw,
+                1 => raw | (1 << 63),
+                2 => (raw % 1_000_000) * 1_000_000_000_000,
+                3 => (raw >> 20) << 20,
+                _ => u64::MAX - raw % 1000,
+            };
+            let exp = (k % 41) as isize - 20;
+            let minp = match (k / 41) % 3 {
+                0 => None,
+                1 => Some(1 + k % 30),
+                _ => Some(0),
+            };
+            if fam == "f" {
+                w.f[dst] = FBig::from_parts_const(sign, sig as DoubleWord, exp, minp);
+                env.res(Pool::F, dst);
+            } else {
+                w.d[dst] = FBig::from_parts_const(sign, sig as DoubleWord, exp, minp);
+                env.res(Pool::D, dst);
+            }
+        }
+        ("u", "fromf") => {
+            let (d, s, single) = float_of(op);
+            match if single { UBig::try_from(s) } else { UBig::try_from(d) } {
+                Ok(v) => {
+                    w.u[dst] = v;
+                    env.res(Pool::U, dst);
+                }
+                Err(_) => env.emit_u64("refused", 1),
+            }
+        }
+        ("i", "fromf") => {
+            let (d, s, single) = float_of(op);
+            match if single { IBig::try_from(s) } else { IBig::try_from(d) } {
+                Ok(v) => {
+                    w.i[dst] = v;
+                    env.res(Pool::I, dst);
+                }
+                Err(_) => env.emit_u64("refused", 1),
+            }
+        }
+        ("f", "fromf") => {
+            let (d, s, single) = float_of(op);
+            match if single { FBig::<dashu_float::round::mode::Zero, 2>::try_from(s) } else { FBig::<dashu_float::round::mode::Zero, 2>::try_from(d) } {
+                Ok(v) => {
+                    w.f[dst] = v;
+                    env.res(Pool::F, dst);
+                }
+                Err(_) => env.emit_u64("refused", 1),
+            }
+        }
+        ("r", "fromf") | ("x", "fromf") => {
+            let (d, s, single) = float_of(op);
+            if fam == "r" {
+                let v = match form % 3 {
+                    0 => if single { RBig::try_from(s).ok() } else { RBig::try_from(d).ok() },
+                    1 => if single { RBig::simplest_from_f32(s) } else { RBig::simplest_from_f64(d) },
+                    _ => RBig::try_from(d).ok().map(|v| v.relax().canonicalize()),
+                };
+                match v {
+                    Some(v) => {
+                        w.r[dst] = v;
+                        env.res(Pool::R, dst);
+                    }
+                    None => env.emit_u64("refused", 1),
+                }
+            } else {
+                match if single { Relaxed::try_from(s) } else { Relaxed::try_from(d) } {
+                    Ok(v) => {
+                        w.x[dst] = v;
+                        env.res(Pool::X, dst);
+                    }
+                    Err(_) => env.emit_u64("refused", 1),
+                }
             }
         }
         ("u", "asf") => asf!(&w.u[a], form, env, hex_ubig(&w.u[a])),
